@@ -1,4 +1,202 @@
-/- Model driver for C04 (stub: not built yet). -/
+/-
+Model driver for C04.  Protocol: see the header comment of harness/c04.cpp — this driver must
+print exactly what the harness prints for the same lines.
+-/
+import Osmium.Model.Buf
 import Driver.Common
 
-def main : IO Unit := pure ()
+open Osmium.Layout Osmium.Buf Driver
+
+structure DState where
+  st : Option St := none
+
+def statusStr : Status → String
+  | .ok => "ok" | .full => "buffer_is_full" | .badOp => "bad-op" | .stale => "stale_pointer"
+  | .null => "null_deref" | .misaligned => "misaligned" | .terminate => "terminate"
+
+def nums (b : Buf) : String :=
+  s!"{b.cap} {b.written} {b.committed} {if b.nested.isEmpty then 0 else 1}"
+
+def outLine (s : St) (st : Status) (payload : Option String := none) : String :=
+  statusStr st ++ " " ++ nums s.b0 ++ (match payload with | some p => " | " ++ p | none => "")
+
+def parseMode : String → Option Mode
+  | "no" => some .no | "yes" => some .yes | "internal" => some .internal | _ => none
+
+def parseKind : String → Option Kind
+  | "node" => some .node | "way" => some .way | "relation" => some .relation | "area" => some .area
+  | "changeset" => some .changeset | "taglist" => some .taglist | "wnl" => some .wnl
+  | "outer" => some .outer | "inner" => some .inner | "rml" => some .rml | "disc" => some .disc
+  | _ => none
+
+def topKind (s : St) : Option Kind := s.stack.head?.map (·.kind)
+
+/-- `set <field> <args>` → model ops, depending on the kind of the open builder -/
+def setOps (k : Kind) (field : String) (args : List Int) : Option (List Op) :=
+  if !k.isObj then none else
+  if k == .changeset then
+    match field, args with
+    | "id", [v] => some [.setField 32 4 v]
+    | "uid", [v] => some [.setField 44 4 v]
+    | "created", [v] => some [.setField 24 4 v]
+    | "closed", [v] => some [.setField 28 4 v]
+    | "nchanges", [v] => some [.setField 36 4 v]
+    | "ncomments", [v] => some [.setField 40 4 v]
+    | "removed", [v] => some [.setRemoved (v != 0)]
+    | "bounds", [a, b, c, d] => some [.setField 8 4 a, .setField 12 4 b, .setField 16 4 c, .setField 20 4 d]
+    | _, _ => none
+  else
+    match field, args with
+    | "id", [v] => some [.setField 8 8 v]
+    | "version", [v] => some [.setVersion v.toNat]
+    | "deleted", [v] => some [.setDeleted (v != 0)]
+    | "ts", [v] => some [.setField 20 4 v]
+    | "uid", [v] => some [.setField 24 4 v]
+    | "cs", [v] => some [.setField 28 4 v]
+    | "removed", [v] => some [.setRemoved (v != 0)]
+    | "loc", [x, y] => if k == .node then some [.setField 32 4 x, .setField 36 4 y] else none
+    | _, _ => none
+
+/-- run several ops; stop at the first that is not ok -/
+def runOps (s : St) : List Op → St × Status
+  | [] => (s, .ok)
+  | op :: ops =>
+    let (s', st, _) := step s op
+    if st == .ok then runOps s' ops else (s', st)
+
+def cbsStr (cbs : List (Nat × Nat)) : String :=
+  if cbs.isEmpty then "-" else ",".intercalate (cbs.map fun (a, b) => s!"{a}>{b}")
+
+def treeOf (b : Bytes) : String := printDecoded (decodeAll b)
+
+def undefCoord : Int := 2147483647
+
+/-- parse n groups of `k` words -/
+def groups (k : Nat) : Nat → List String → Option (List (List String))
+  | 0, [] => some []
+  | 0, _ => none
+  | n + 1, ws => if ws.length < k then none else do
+      let rest ← groups k n (ws.drop k)
+      pure (ws.take k :: rest)
+
+def attrOps : List String → Option (List Op)
+  | "attr_node" :: id :: ver :: user :: n :: rest => do
+    let id ← id.toInt?; let ver ← ver.toNat?; let user ← unhex user; let n ← n.toNat?
+    let gs ← groups 2 n rest
+    let tags ← gs.mapM fun g => do
+      let k ← unhex (g.getD 0 ""); let v ← unhex (g.getD 1 ""); pure (Op.tag k v)
+    pure ([.open .node, .setField 8 8 id, .setVersion ver, .user user, .open .taglist] ++ tags ++ [.close, .close])
+  | "attr_way" :: id :: user :: n :: rest => do
+    let id ← id.toInt?; let user ← unhex user; let n ← n.toNat?
+    if rest.length ≠ n then none
+    let refs ← rest.mapM (·.toInt?)
+    pure ([.open .way, .setField 8 8 id, .user user, .open .wnl] ++ refs.map (fun r => Op.nodeRef r undefCoord undefCoord) ++ [.close, .close])
+  | "attr_relation" :: id :: user :: n :: rest => do
+    let id ← id.toInt?; let user ← unhex user; let n ← n.toNat?
+    let gs ← groups 3 n rest
+    let ms ← gs.mapM fun g => do
+      let ty ← (g.getD 0 "").toNat?; let ref ← (g.getD 1 "").toInt?; let role ← unhex (g.getD 2 "")
+      pure (Op.member ty ref role none)
+    pure ([.open .relation, .setField 8 8 id, .user user, .open .rml] ++ ms ++ [.close, .close])
+  | "attr_changeset" :: id :: user :: n :: rest => do
+    let id ← id.toInt?; let user ← unhex user; let n ← n.toNat?
+    let gs ← groups 4 n rest
+    let cs ← gs.mapM fun g => do
+      let date ← (g.getD 0 "").toNat?; let uid ← (g.getD 1 "").toNat?
+      let u ← unhex (g.getD 2 ""); let t ← unhex (g.getD 3 "")
+      pure [Op.comment date uid u, Op.commentText t]
+    pure ([.open .changeset, .setField 32 4 id, .user user, .open .disc] ++ cs.flatten ++ [.close, .close])
+  | _ => none
+
+def stepLine (d : DState) (line : String) : DState × String :=
+  let ws := words line
+  match ws with
+  | ["init", c0, m0, c1, m1, fill, fix] =>
+    match c0.toNat?, parseMode m0, c1.toNat?, parseMode m1, fill.toNat? with
+    | some c0, some m0, some c1, some m1, some fill =>
+      let s := St.init c0 m0 c1 m1 (UInt8.ofNat fill) (fix == "1")
+      ({ st := some s }, outLine s .ok)
+    | _, _, _, _, _ => (d, "bad-op 0 0 0 0")
+  | _ =>
+  match d.st with
+  | none => (d, "bad-op 0 0 0 0")
+  | some s =>
+    let fin (r : St × Status) (payload : Option String := none) : DState × String :=
+      ({ st := some r.1 }, outLine r.1 r.2 (if r.2 == .ok then payload else none))
+    let one (op : Op) (payload : Option String := none) : DState × String :=
+      let (s', st, _) := step s op
+      fin (s', st) payload
+    let badop : DState × String := (d, outLine s (match s.dead with | some e => Status.ofErr e | none => .badOp))
+    match ws with
+    | [k] =>
+      match parseKind k with
+      | some kind => one (.open kind)
+      | none =>
+        match k with
+        | "end" => one .close
+        | "commit" => one .commit (some (toString s.b0.committed))
+        | "rollback" => one .rollback
+        | "clear" => one .clear (some (toString s.b0.committed))
+        | "add_buffer" => one .addBuffer
+        | "swap" => one .swap
+        | "move" => one .move (some "0 0 0 0")
+        | "purge" =>
+          let (s', st, cbs) := step s .purge
+          fin (s', st) (some (cbsStr cbs))
+        | "purge0" => one .purge
+        | "nested" =>
+          if s.dead.isSome ∨ !s.b0.valid then badop else
+          match s.b0.nested.getLast? with
+          | none => fin (s, .ok) (some "none")
+          | some nb => one .popNested (some (treeOf nb.bytes ++ " | " ++ Driver.hex nb.bytes))
+        | "dump" =>
+          if s.dead.isSome then badop else fin (s, .ok) (some (treeOf s.b0.comm ++ " | " ++ Driver.hex s.b0.comm))
+        | "hexdump" =>
+          if s.dead.isSome then badop else fin (s, .ok) (some (Driver.hex s.b0.comm))
+        | "dumpall" =>
+          if s.dead.isSome ∨ !s.b0.valid then badop else
+          -- each buffer is decoded on its own (that is what the harness can do), printed as one sequence
+          let parts := (s.b0.nested.reverse.map (·.bytes)) ++ [s.b0.comm]
+          let strs := (parts.map treeOf).filter (· ≠ "-")
+          let s' := { s with b0 := { s.b0 with nested := [] } }
+          fin (s', .ok) (some (if strs.isEmpty then "-" else " ".intercalate strs))
+        | _ => badop
+    | "set" :: field :: args =>
+      match topKind s, args.mapM (·.toInt?) with
+      | some k, some args =>
+        match setOps k field args with
+        | some ops => if s.dead.isSome then badop else fin (runOps s ops)
+        | none => badop
+      | _, _ => badop
+    | ["user", u] => match unhex u with | some u => one (.user u) | none => badop
+    | ["tag", k, v] | ["tags", k, v] =>
+      match unhex k, unhex v with | some k, some v => one (.tag k v) | _, _ => badop
+    | ["nr", r, x, y] =>
+      match r.toInt?, x.toInt?, y.toInt? with
+      | some r, some x, some y => one (.nodeRef r x y) | _, _, _ => badop
+    | ["member", t, r, role] =>
+      match t.toNat?, r.toInt?, unhex role with
+      | some t, some r, some role => one (.member t r role none) | _, _, _ => badop
+    | ["memberf", t, r, role, k] =>
+      match t.toNat?, r.toInt?, unhex role, k.toNat? with
+      | some t, some r, some role, some k => one (.member t r role (some k)) | _, _, _, _ => badop
+    | ["comment", date, uid, u] =>
+      match date.toNat?, uid.toNat?, unhex u with
+      | some date, some uid, some u => one (.comment date uid u) | _, _, _ => badop
+    | ["ctext", t] => match unhex t with | some t => one (.commentText t) | none => badop
+    | ["push_back", k] => match k.toNat? with | some k => one (.pushBack k) | none => badop
+    | ["setrm", k, v] =>
+      match k.toNat?, v.toNat? with | some k, some v => one (.setRm k (v != 0)) | _, _ => badop
+    | _ =>
+      match attrOps ws with
+      | some ops =>
+        if !s.stack.isEmpty ∨ s.dead.isSome then badop else
+        let (s', st) := runOps s ops
+        if st == .ok then
+          let off := s'.b0.committed
+          let (s'', st', _) := step s' .commit
+          fin (s'', st') (some (toString off))
+        else fin (s', st)
+      | none => badop
+
+def main : IO Unit := loop stepLine {}
